@@ -1529,7 +1529,15 @@ class Emitter:
         init = [c for c in d.get("inner", []) if c.get("kind") not in ("FullComment",)]
         init = init[0] if init else None
         if static:
-            raise Unsupported("static local variable %s" % d.get("name"))
+            # a static local is supported only when it carries no state in the model (std::mutex): plain local
+            try:
+                sct = self.tm.c(t)
+            except Unsupported:
+                sct = None
+            if sct != "struct vf_std_mutex":
+                raise Unsupported("static local variable %s" % d.get("name"))
+            name = self.decl_local(d, False)
+            return ["%sstruct vf_std_mutex %s = {0};" % (ind, name)]
         if t.kind in ("ref", "rref"):
             ct = self.tm.c(t.to)
             name = self.decl_local(d, True)
